@@ -14,7 +14,9 @@ Driver ops of the predicate engine (C02):
 site = `(s <cap> <node> <parent> <curfunc> <oracle>)`;
 cap = `(one <ex|-> <ty>)` | `(list (<ex> <ty>)…)`;
 node/parent = `-` | `(<tag> <isExpr> <isStmt>)`; curfunc = `none` | `notfunc` | `v0` | `v1`;
-oracle = `-` | `(<onSubNode> <onSubExpr> -|(<elem>…))`;
+oracle = `-` | `(<onSubNode> <onSubExpr> -|(<elem>…))`
+(`sinktypeis`, `textmatches`, `texteq`, `textneq` are about the captured node as a whole — the sink of the match, the
+source text of the capture, also of a `$*xs` list: both bits carry that one answer, no per-element answers);
 ex = `(star x) (bin x y) (un <0|1> x) (lit <0|1>) (id obj) (flit) (idx x i) (sel x obj) (par x)
 (comp <isSlice> (<const>…) x…) (call <funIsByteSlice> fn x…) (tlit) (kv k v) (slc x i…) (ta x) (oth)`;
 obj = `-` | `<kind>:<parentIsPkgScope>:<lastParamOfDecl>:<variadicParam>:<variadicOfLit>`;
@@ -117,6 +119,8 @@ def relOf (s : String) : Option Rel :=
   | "implements" => some .implements | "comparable" => some .comparable
   | "hasmethod" => some .hasMethod | "identicalto" => some .identicalTo
   | "addressable" => some .addressable | "const" => some .const
+  | "sinktypeis" => some .sinkTypeIs | "textmatches" => some .textMatches
+  | "texteq" => some .textCmp | "textneq" => some .textCmp
   | _ => none
 
 /-- the predicate a request names; `none`: malformed request -/
